@@ -97,6 +97,10 @@ cosh = _mathfun_real(math.cosh, cmath.cosh)
 sinh = _mathfun_real(math.sinh, cmath.sinh)
 tanh = _mathfun_real(math.tanh, cmath.tanh)
 
+acosh = _mathfun(math.acosh, cmath.acosh)
+asinh = _mathfun_real(math.asinh, cmath.asinh)
+atanh = _mathfun(math.atanh, cmath.atanh, cut_above_one=True)
+
 floor = _mathfun_real(math.floor,
     lambda z: complex(math.floor(z.real), math.floor(z.imag)))
 ceil = _mathfun_real(math.ceil,
